@@ -48,8 +48,10 @@ for cls, selfT in (("PreOCF", OCF), ("SystemZPreOCF", ZOCF)):
         returns=TList(TForm),
         ensures=lambda c, r: [L.MAll(r.t, r.len()) == Wof(c.bitvec.t)],
         trusted=True,
-        note="ASSUMED (string/bit manipulation outside Engine P's subset): the literals returned for a bitstring "
-        "jointly denote exactly the assignments Wof(bitvec); exercised by Engine B (C16, C18)",
+        note="interface view of symbolize_bitvec: the literals returned jointly denote Wof(bitvec). The computation is proved at "
+        "implementation level (PreOCF.symbolize_bitvec#impl: per position the atom or its negation, jointly WofN(bitvec, signature); "
+        "lemma WofN.map); what remains ASSUMED here is the reading Wof(b) := WofN(b, signature of the ranking) and that worlds handed "
+        "to a ranking are well-formed bitstrings of its signature; exercised by Engine B (C16, C18)",
     )
 
 
@@ -744,6 +746,11 @@ Contract(
         L.MAll(r.t, r.len()) == WofN(c.bitvec.t, c.field(c.self, "signature").val.t, LStr.len(c.field(c.self, "signature").val.t)),
     ],
     raises={"ValueError": lambda c: c.field(c.self, "signature").isnone},
+    hints=lambda c, r: [
+        LitsOK(r.t, c.bitvec.t, c.field(c.self, "signature").val.t, n) == LitsOK(r.t, c.bitvec.t, c.field(c.self, "signature").val.t, n)
+        for n in (r.len(), LStr.len(c.field(c.self, "signature").val.t))
+    ]
+    + [L.MAll(r.t, LStr.len(c.field(c.self, "signature").val.t)) == L.MAll(r.t, LStr.len(c.field(c.self, "signature").val.t))],
     axioms=[WOFN_MAP],
     properties=["C16", "C18"],
     fuel=6,
